@@ -75,6 +75,7 @@ theorem admin_step (s : State) (m : Move) (h : Inv s) (ha : assumed s m = true) 
     simp only [step]; split
     · rfl
     · split <;> rfl
+  | markTerminating ns name fault => exact (markTerminating_spec s ns name fault h).2.2
   | scale kind ns app n => rfl
   | deleteApp kind ns app => rfl
   | setPool name size => simp only [step]; cases size <;> rfl
